@@ -28,8 +28,14 @@ SPECS = {
     "computed_rep": '<start> ::= <n> ":" <i>{int(<n>)}\n<n> ::= "1" | "2" | "3"\n<i> ::= "a" | "b"\n',
     "computed_rep_where": '<start> ::= <n> ":" <i>{int(<n>)} ";"\n<n> ::= "1" | "2"\n<i> ::= "a" | "b"\nwhere str(<start>).count("a") >= 1\n',
     "len_eq": '<start> ::= <len> <payload>\n<len> ::= r"[0-3]"\n<payload> ::= r"[ab]"*\nwhere int(<len>) == len(str(<payload>))\n',
+    # <ws> can attach at two adjacent levels: two derivations of "a " with the same pre-order sequence of symbols; the verdict depends on the shape
+    "attach_levels": '<start> ::= <entry>\n<entry> ::= <key> <ws>?\n<key> ::= <char>+ <ws>?\n<ws> ::= " "\n<char> ::= "a" | "b"\nwhere len(*<entry>.<ws>) == 0\n',
     "comprehension_bound": '<start> ::= <lim> ":" <it>{1,3}\n<lim> ::= "1" | "2" | "3"\n<it> ::= "1" | "2" | "3"\nwhere all(int(<lim>) >= int(i) for i in *<it>)\n',
 }
+
+
+# inputs all of whose parses join the pool (ambiguous inputs give several trees with the same text)
+POOL_WORDS = {"attach_levels": ["a ", "ab ", "b"]}
 
 
 def outcome_of(fn):
@@ -73,6 +79,11 @@ def run(tier="quick", seed=0, pid="C11"):
         for name, text in SPECS.items():
             grammar, constraints = load(text)            # long-lived objects
             trees = pool_of(grammar, rnd, 10 if tier == "quick" else 40)
+            for w in POOL_WORDS.get(name, []):
+                try:
+                    trees.extend(grammar.parse_forest(w))
+                except Exception:
+                    pass
             order = list(range(len(trees))) * 2
             rnd.shuffle(order)
             order = list(range(len(trees))) + order       # first pass in order, then every tree twice more in random order
@@ -95,7 +106,7 @@ def run(tier="quick", seed=0, pid="C11"):
                 samples.append({"spec": name, "trees": len(trees), "constraints": len(constraints)})
     return {
         "evaluations": evaluations, "distinct_nontrivial": len(distinct),
-        "rule": ("7 specs (comparison/boolean, nested quantifiers, raising expressions, computed repetition bounds with and without `where`, "
+        "rule": ("8 specs (comparison/boolean, shape-dependent constraint over an ambiguous grammar, nested quantifiers, raising expressions, computed repetition bounds with and without `where`, "
                  "length fields, comprehension-bound names) x a pool of 10 (40) fuzzed trees, each evaluated three times (in order, then twice "
                  "more in random order) with long-lived constraint objects and compared with brand-new objects; outcome = (success, solved, "
                  "total, #failing trees, suggestion class) or the exception class; distinct = distinct (spec, constraint, tree)"),
